@@ -60,8 +60,8 @@ func (c *flagNameChecker) VisitExpr(expr ast.Expr) {
 
 func (c *flagNameChecker) checkFlagName(call *ast.CallExpr, arg ast.Expr) {
 	cv := c.ctx.TypesInfo.Types[arg].Value
-	if cv == nil {
-		return // Non-constant name
+	if cv == nil || cv.Kind() != constant.String {
+		return // Non-constant name (or not a string: the package doesn't type-check)
 	}
 	name := constant.StringVal(cv)
 	switch {
